@@ -6,7 +6,9 @@ import Pi2.MM.Compressed
 (`metamath/translate.py: exec_proof`, `metamath/converter/converter.py`), fragment F0 of DESIGN.md
 
 *Fragment.*  One sort of metavariables (`$f #Pattern v`), the built-in constructors `\imp` and `\app`,
-constants and n-ary constructors declared only by an `…-is-pattern` axiom, `|-` axioms with and
+constants and n-ary constructors declared only by an `…-is-pattern` axiom, DECLARED NOTATIONS (an
+`…-is-pattern` axiom `$a #Pattern ( n v₁ … vₖ )` together with `$a #Notation ( n v₁ … vₖ ) body`: `Ctor.body`;
+for Metamath `n` is one more constructor, the converter expands it: `plug`, `imageT`, `DB.notTab`), `|-` axioms with and
 without essential hypotheses, the proof rules `proof-rule-prop-1`, `proof-rule-prop-2`, `proof-rule-mp`,
 compressed proofs with reuse marks.  Terms are trees: that is how the lark parser delivers them
 (`Application(symbol, subterms)`, `Metavariable(name)`), and Metamath's token-string substitution
@@ -70,12 +72,28 @@ def varsList : List Term → List Nat
   | x :: xs => vars x ++ varsList xs
 end
 
+mutual
+/-- the constructor symbols (`con`) of a term -/
+def syms : Term → List Nat
+  | var _ => []
+  | imp a b => syms a ++ syms b
+  | app a b => syms a ++ syms b
+  | con c xs => c :: symsList xs
+def symsList : List Term → List Nat
+  | [] => []
+  | x :: xs => syms x ++ symsList xs
+end
+
 end Term
 
-/-- a constructor `lbl $a #Pattern ( sym v₁ … vₙ )`; `n = 0`: a constant `lbl $a #Pattern sym` -/
+/-- a constructor `lbl $a #Pattern ( sym v₁ … vₙ )`; `n = 0`: a constant `lbl $a #Pattern sym`.
+`body = some b`: the database also declares the NOTATION `… $a #Notation ( sym v₁ … vₙ ) b` (sugar): for
+Metamath `sym` is a constructor like any other (the `#Notation` statement is never cited in a proof), for the
+converter `( sym t₁ … tₙ )` denotes `b` with `tᵢ` for `vᵢ` -/
 structure Ctor where
   sym : Nat
   args : List Nat
+  body : Option Term := none
 deriving Repr, Inhabited
 
 /-- an `|-` axiom of the database with its essential hypotheses (the block's `$e` statements, in order) -/
@@ -201,17 +219,81 @@ def mmVerify (db : DB) (goal : Term) (labels : List Lbl) (steps : List Nat) : Bo
 /-- `Scope.add_metavariable`: a variable's metavariable id is its position among the `$f` statements -/
 def DB.mvId (db : DB) (v : Nat) : Nat := db.floats.idxOf v
 
+/-- the call of a notation's closure (`Notation.__call__` → the lambda built by `_to_pattern`): the body's
+pattern with the argument patterns at the positions of the notation's variables (`match_arg`); plain patterns,
+no `Instantiate` wrapper -/
+def plug (δ : List (Nat × NPat)) : NPat → NPat
+  | .mv id ef sf ps ns hs => match Py.lookup δ id with | some q => q | none => .mv id ef sf ps ns hs
+  | .imp l r => .imp (plug δ l) (plug δ r)
+  | .app l r => .app (plug δ l) (plug δ r)
+  | p => p
+
+/-- the declared notations the converter has imported so far: symbol ↦ (metavariable ids of the notation's
+variables, the body's pattern over them) -/
+abbrev NTab := List (Nat × List Nat × NPat)
+
 mutual
-/-- `_to_pattern`: a constructor without notation becomes its symbol applied with nested `App` -/
-def image (db : DB) : Term → NPat
+/-- `_to_pattern` in a scope that knows the notations `tab`: a constructor without notation becomes its symbol
+applied with nested `App` (the `_missing_declarations` path); a declared notation is called on the images of its
+arguments.  (A notation symbol with a different number of arguments is not a term of the database's grammar; the
+model then treats the symbol as a plain one.) -/
+def imageT (db : DB) (tab : NTab) : Term → NPat
   | .var v => PySt.phiN (db.mvId v)
-  | .imp a b => .imp (image db a) (image db b)
-  | .app a b => .app (image db a) (image db b)
-  | .con c xs => imageApp db (.sym c) xs
-def imageApp (db : DB) (acc : NPat) : List Term → NPat
+  | .imp a b => .imp (imageT db tab a) (imageT db tab b)
+  | .app a b => .app (imageT db tab a) (imageT db tab b)
+  | .con c xs =>
+    match tab.lookup c with
+    | some (keys, p) =>
+      if keys.length = xs.length then plug (keys.zip (imageListT db tab xs)) p
+      else imageAppT db tab (.sym c) xs
+    | none => imageAppT db tab (.sym c) xs
+def imageAppT (db : DB) (tab : NTab) (acc : NPat) : List Term → NPat
   | [] => acc
-  | x :: xs => imageApp db (.app acc (image db x)) xs
+  | x :: xs => imageAppT db tab (.app acc (imageT db tab x)) xs
+def imageListT (db : DB) (tab : NTab) : List Term → List NPat
+  | [] => []
+  | x :: xs => imageT db tab x :: imageListT db tab xs
 end
+
+/-- `_top_down`, second sweep: the `#Notation` axioms are imported in database order before every other axiom;
+the body of each is converted in the scope of the EARLIER notations -/
+def DB.notTabFrom (db : DB) : NTab → List Ctor → NTab
+  | tab, [] => tab
+  | tab, c :: cs =>
+    match c.body with
+    | none => db.notTabFrom tab cs
+    | some b => db.notTabFrom (tab ++ [(c.sym, c.args.map db.mvId, imageT db tab b)]) cs
+
+def DB.notTab (db : DB) : NTab := db.notTabFrom [] db.ctors
+
+/-- the converter's image of a term: `_to_pattern` in the final scope -/
+def image (db : DB) (t : Term) : NPat := imageT db db.notTab t
+def imageApp (db : DB) (acc : NPat) (xs : List Term) : NPat := imageAppT db db.notTab acc xs
+def imageList (db : DB) (xs : List Term) : List NPat := imageListT db db.notTab xs
+
+theorem image_var (db : DB) (v : Nat) : image db (.var v) = PySt.phiN (db.mvId v) := by
+  simp only [image, imageT]
+theorem image_imp (db : DB) (a b : Term) : image db (.imp a b) = .imp (image db a) (image db b) := by
+  simp only [image, imageT]
+theorem image_app (db : DB) (a b : Term) : image db (.app a b) = .app (image db a) (image db b) := by
+  simp only [image, imageT]
+theorem imageApp_nil (db : DB) (acc : NPat) : imageApp db acc [] = acc := by
+  simp only [imageApp, imageAppT]
+theorem imageApp_cons (db : DB) (acc : NPat) (x : Term) (xs : List Term) :
+    imageApp db acc (x :: xs) = imageApp db (.app acc (image db x)) xs := by
+  simp only [imageApp, imageAppT, image]
+theorem imageList_nil (db : DB) : imageList db [] = [] := by
+  simp only [imageList, imageListT]
+theorem imageList_cons (db : DB) (x : Term) (xs : List Term) :
+    imageList db (x :: xs) = image db x :: imageList db xs := by
+  simp only [imageList, imageListT, image]
+theorem image_con (db : DB) (c : Nat) (xs : List Term) :
+    image db (.con c xs) =
+      match db.notTab.lookup c with
+      | some (keys, p) =>
+        if keys.length = xs.length then plug (keys.zip (imageList db xs)) p else imageApp db (.sym c) xs
+      | none => imageApp db (.sym c) xs := by
+  simp only [image, imageT, imageApp, imageList]
 
 /-- `convert_to_implication(antecedents, conclusion)` (a rule without hypotheses is its conclusion) -/
 def implChain (db : DB) : List Term → Term → NPat
@@ -293,6 +375,8 @@ def xstep (cfg : Cfg) (n : Nat) (db : DB) (labels : List Lbl) (x : XSt) (step : 
           match db.ctors[k]? with
           | none => some none
           | some c => do
+            -- `get_axiom_by_name(label).pattern`: the image of the axiom's statement; for a declared notation that is the
+            -- notation's closure called on its own metavariables = the image of the body (`image_notation_axiom`)
             let t : Term := .con c.sym (c.args.map .var)
             match ← patternF cfg n x.s (image db t) x.calls with
             | none => pure none
@@ -419,10 +503,31 @@ end MM
 
 namespace MM
 
-/-- well-formedness of a database of the fragment (decidable; the driver evaluates it on every generated
-database so that the theorems' hypothesis is known to be met): `$f` statements are unique; every rule
+/-- the symbols with a declared notation -/
+def DB.notSyms (db : DB) : List Nat := (db.ctors.filter (·.body.isSome)).map (·.sym)
+
+/-- the declared notations, in database order (`seen` = the notation symbols declared so far): a body mentions
+only the notation's own variables, and of the notation symbols only EARLIER ones (the converter resolves a symbol
+as a notation only if the notation is already in scope when the body is converted) -/
+def DB.notWf (db : DB) : List Nat → List Ctor → Bool
+  | _, [] => true
+  | seen, c :: cs =>
+    match c.body with
+    | none => db.notWf seen cs
+    | some b =>
+      b.vars.all c.args.contains &&
+      b.syms.all (fun s => seen.contains s || !db.notSyms.contains s) &&
+      db.notWf (seen ++ [c.sym]) cs
+
+/-- the notation clauses of `DB.wf`: a symbol with a declared notation has one constructor axiom; notation
+bodies are stated over the notation's variables and earlier notations -/
+def DB.notOk (db : DB) : Bool :=
+  db.ctors.all (fun c => c.body.isNone || (db.ctors.filter (·.sym == c.sym)).length == 1) &&
+  db.notWf [] db.ctors
+
+/-- the clauses of `DB.wf` that do not concern notations: `$f` statements are unique; every rule
 and constructor is stated over declared variables, the built-in ones over pairwise distinct variables -/
-def DB.wf (db : DB) : Bool :=
+def DB.wf0 (db : DB) : Bool :=
   db.floats.Nodup &&
   ([db.impArgs.1, db.impArgs.2].Nodup && [db.impArgs.1, db.impArgs.2].all db.floats.contains) &&
   ([db.appArgs.1, db.appArgs.2].Nodup && [db.appArgs.1, db.appArgs.2].all db.floats.contains) &&
@@ -431,6 +536,11 @@ def DB.wf (db : DB) : Bool :=
   ([db.p1.1, db.p1.2].Nodup && [db.p1.1, db.p1.2].all db.floats.contains) &&
   ([db.p2.1, db.p2.2.1, db.p2.2.2].Nodup && [db.p2.1, db.p2.2.1, db.p2.2.2].all db.floats.contains) &&
   ([db.mp.1, db.mp.2].Nodup && [db.mp.1, db.mp.2].all db.floats.contains)
+
+/-- well-formedness of a database of the fragment (decidable; the driver evaluates it on every generated
+database so that the theorems' hypothesis is known to be met): `DB.wf0` and, for the declared notations,
+`DB.notOk` (true of every database without notations) -/
+def DB.wf (db : DB) : Bool := db.wf0 && db.notOk
 
 /-- the symbols of a call history are named in the order of their first serialisation (names are
 arbitrary labels: the correspondence harness renames; see DESIGN.md, `CanonTab`) -/
